@@ -126,7 +126,7 @@ def run(ctx):
                 "authzV1_without_kid_check_accepts_foreign_key", "header_keys_ignored", "apiToken_key_header_rejected",
                 "parseJWS_splitCompact_mode_accepts_two_uncovered", "dagTx_without_private_check_accepts_private_jwk",
                 "apiToken_atLeastOne_rule_accepts_two_signatures",
-                "fact_resolveSigningKey", "kid_issuer_test_exact", "kid_issuer_test_complete", "resolved_kid_is_issuers", "vcJwtSignatureK_refines", "accept_vcJwtK",
+                "xph_single_signature", "xph_agrees_with_parseJWT", "fact_extractProtectedHeaders", "fact_resolveSigningKey", "kid_issuer_test_exact", "kid_issuer_test_complete", "resolved_kid_is_issuers", "vcJwtSignatureK_refines", "accept_vcJwtK",
                 "fact_fold_guard", "fact_caseVariantMember", "fold_s_k_orbits", "fold_ascii", "toLower_misses_long_s", "ambiguousMember_refuses_every_conflated_pair",
                 "accept_vcJsonLdDoc", "toLower_guard_accepts_conflated_pair",
                 "fact_dag_framing_consts", "fact_alphabet", "fact_signatureAlgorithm", "rawurl_roundtrip", "encode_is_canonical", "canonical_segment_unique",
@@ -174,7 +174,7 @@ def run(ctx):
     replay_c = None
     if ctx.replay:
         txt = open(ctx.replay).read()
-        replay_c = ("c17dag" if ('"hex"' in txt or '"sigalg"' in txt) else "c17jar" if '"jar"' in txt else "c17vc" if ('"vcjwt"' in txt or '"vcld"' in txt or '"vcldfold"' in txt or '"ambig"' in txt or '"resolvekid"' in txt) else
+        replay_c = ("c17dag" if ('"hex"' in txt or '"sigalg"' in txt) else "c17jar" if '"jar"' in txt else "c17vc" if ('"vcjwt"' in txt or '"vcld"' in txt or '"vcldfold"' in txt or '"ambig"' in txt or '"resolvekid"' in txt or '"xph"' in txt) else
                     "c17az" if ('"authzv1"' in txt or '"introspect"' in txt) else "c17ld" if '"ldproof"' in txt else "c17")
     for (pkg, files, name) in HARNESSES:
         if replay_c and replay_c != name:
@@ -205,6 +205,20 @@ def run(ctx):
             if i >= len(ops) or not ops[i]:
                 continue
             op = json.loads(ops[i])
+            if op.get("op") == "xph":
+                table.setdefault("xph", Counter())[f"{op.get('class')}:{line.split(':')[0]}"] += 1
+                distinct.add(("xph", op["name"].split("-", 2)[-1]))
+                sigs = (op.get("info") or {}).get("sigs") or []
+                # headers are handed to the key resolver only for a token with exactly one signature, and they are that signature's protected ones
+                if line.startswith("headers:") and line != "headers:," and (len(sigs) != 1 or line != f"headers:{sigs[0].get('alg', '')},{sigs[0].get('kid', '')}"):
+                    o_bad += 1
+                    sig = "C17:vcjwt:headers-of-another-signature"
+                    if sig not in seen_sig:
+                        seen_sig[sig] = 1 if ctx.violation(sig, f"ExtractProtectedHeaders('{op['name']}') = {line!r} for a token with {len(sigs)} signatures "
+                                                           f"({[(x.get('alg'), x.get('kid')) for x in sigs][:3]}): the resolver's metadata is not the verified signature's protected header",
+                                                           "xph-headers-of-another-signature.jsonl", json.dumps({"c": "vcjwt", "name": op["name"], "class": op.get("class")})) else 0
+                    o_unsuppressed += seen_sig[sig]
+                continue
             if op.get("op") == "resolvekid":
                 table.setdefault("resolvekid", Counter())["asked-differs-from-kid" if line != op["kid"] else "asked-kid"] += 1
                 distinct.add(("resolvekid", op["kid"][:12], op["issuer"][:12]))
